@@ -511,6 +511,16 @@ def discards(tier):
              "edges": [buf("A", "S", "M1", cap=1), buf("B", "M1", "M2", cap=1), buf("C", "M2", "K", cap=1)], "until": 14,
              "family": "discards", "tag": "discards(machine,%s)" % _p(pol)}
         out.append(c)
+    # the blocking counterparts: a node with an explicit out-edge policy that is held up for a while by a slow consumer
+    for pol in (0, "ROUND_ROBIN", ("call",)):
+        c = {"nodes": [src("S", n=5, blocking=True, iat=[1, 0.5], pol=pol), mach("M", pd=[3, 4]), sink("K")],
+             "edges": [buf("E1", "S", "M", cap=1), buf("E2", "M", "K", cap=1)], "until": 14, "family": "discards",
+             "tag": "held_up(source,%s)" % _p(pol)}
+        out.append(c)
+        c = {"nodes": [src("S", n=5, iat=[1, 0.5]), mach("M1", blocking=True, out_pol=pol, pd=[0.5, 0]), mach("M2", pd=[3, 4]), sink("K")],
+             "edges": [buf("A", "S", "M1", cap=1), buf("B", "M1", "M2", cap=1), buf("C", "M2", "K", cap=1)], "until": 14,
+             "family": "discards", "tag": "held_up(machine,%s)" % _p(pol)}
+        out.append(c)
     return out
 
 
